@@ -85,6 +85,10 @@ func sha(s string) string {
 	return hex.EncodeToString(h[:8])
 }
 
+// set once a case with differing results has been emitted: a search (obligation broken) stops at the first
+// concrete failing input
+var foundDiff bool
+
 type obs struct {
 	mu     sync.Mutex
 	hashes []string
@@ -210,6 +214,7 @@ func runBatch(c *hl.Ctx, batch []cfg, seqRepeats, concRepeats int) {
 			break
 		}
 		if len(o.texts) > 1 {
+			foundDiff = true
 			var ts []string
 			for _, t := range o.texts {
 				ts = append(ts, t)
@@ -332,6 +337,9 @@ func run(c *hl.Ctx) error {
 	}
 	runBatch(c, batch, seqR, concR)
 	c.Count("corpus")
+	if c.Search && foundDiff {
+		return nil
+	}
 	n := c.Pick(4, 400)
 	if os.Getenv("D2V_RACE") != "" {
 		n = c.Pick(2, 48)
@@ -353,6 +361,9 @@ func run(c *hl.Ctx) error {
 		if len(batch) == 16 || n == 0 {
 			runBatch(c, batch, seqR, concR)
 			batch = nil
+			if c.Search && foundDiff {
+				break
+			}
 		}
 	}
 	return nil
